@@ -134,7 +134,7 @@ func (c *connection) write() {
 	for {
 		select {
 		case <-c.stopChan:
-			clear(record)
+			c.onStopEvent(record)
 			return
 		case activeMsg, ok := <-c.activeMsgChan: // 平台主动下发的
 			if ok {
@@ -142,15 +142,7 @@ func (c *connection) write() {
 			}
 		case msg, ok := <-c.activeMsgCompleteChan: // 平台主动下发的完成情况
 			if ok {
-				seq := msg.ExtensionFields.PlatformSeq
-				if v, ok := record[seq]; ok {
-					msg.ExtensionFields.PlatformData = v.ExtensionFields.Data
-					msg.ExtensionFields.PlatformCommand = v.Command
-					msg.ExtensionFields.ActiveSend = true
-					c.onWriteExecutionEvent(msg)
-					v.replyChan <- msg
-					delete(record, seq)
-				}
+				c.onActiveCompleteEvent(msg, record)
 			}
 		case subPackMsg, ok := <-c.reissuePackChan: // 分包补传的
 			if ok {
@@ -175,13 +167,9 @@ func (c *connection) stop() {
 	c.stopOnce.Do(func() {
 		c.leaveFunc(c.key)
 		c.terminalEvent.OnLeaveEvent(c.key)
+		// 只关闭stopChan 其他的channel不关闭 (还有别的协程会往里面写 关闭了会panic) 交给GC回收
 		close(c.stopChan)
 		_ = c.conn.Close()
-		clear(c.handles)
-		close(c.msgChan)
-		close(c.activeMsgChan)
-		close(c.activeMsgCompleteChan)
-		close(c.reissuePackChan)
 	})
 }
 
@@ -251,7 +239,8 @@ func (c *connection) onActiveEvent(activeMsg *ActiveMessage, record map[uint16]*
 	}
 	if err != nil {
 		replyMsg.ExtensionFields.Err = errors.Join(ErrWriteDataFail, err)
-		c.activeMsgCompleteChan <- replyMsg
+		// 直接完成 不能往activeMsgCompleteChan写 那个channel只有当前协程在读 满了就把自己阻塞住了
+		c.onActiveCompleteEvent(replyMsg, record)
 	} else if activeMsg.OverTimeDuration >= 0 {
 		duration := 3 * time.Second
 		if activeMsg.OverTimeDuration > 0 {
@@ -266,7 +255,10 @@ func (c *connection) onActiveEvent(activeMsg *ActiveMessage, record map[uint16]*
 			}
 			overtimeMsg.ExtensionFields.Err = errors.Join(ErrWriteDataOverTime,
 				fmt.Errorf("overtime is [%.2f]second", duration.Seconds()))
-			c.activeMsgCompleteChan <- overtimeMsg
+			select {
+			case c.activeMsgCompleteChan <- overtimeMsg:
+			case <-c.stopChan: // 连接已经结束 写协程会统一回复 这里不用等了
+			}
 		}(replyMsg)
 	}
 }
@@ -328,13 +320,43 @@ func (c *connection) onActiveRespondEvent(record map[uint16]*ActiveMessage, msg 
 		for k := range record {
 			if tmp.HasRespondFunc(k) {
 				msg.ExtensionFields.PlatformSeq = k
-				c.activeMsgCompleteChan <- msg
+				c.onActiveCompleteEvent(msg, record) // 直接完成 原因同onActiveEvent
 				return true
 			}
 		}
 	}
 
 	return false
+}
+
+// onActiveCompleteEvent 平台主动下发的请求完成了 (终端应答 超时 或者写失败) 回复给调用方 只会回复一次
+func (c *connection) onActiveCompleteEvent(msg *Message, record map[uint16]*ActiveMessage) {
+	seq := msg.ExtensionFields.PlatformSeq
+	if v, ok := record[seq]; ok {
+		msg.ExtensionFields.PlatformData = v.ExtensionFields.Data
+		msg.ExtensionFields.PlatformCommand = v.Command
+		msg.ExtensionFields.ActiveSend = true
+		c.onWriteExecutionEvent(msg)
+		v.replyChan <- msg
+		delete(record, seq)
+	}
+}
+
+// onStopEvent 连接结束了 还在等终端应答的 和 还在队列里面没有下发的请求 都回复失败 不能让调用方一直等
+func (c *connection) onStopEvent(record map[uint16]*ActiveMessage) {
+	err := errors.Join(ErrWriteDataFail, net.ErrClosed)
+	for seq, v := range record {
+		v.replyChan <- newActiveMessage(seq, v.Command, v.ExtensionFields.Data, err)
+		delete(record, seq)
+	}
+	for {
+		select {
+		case v := <-c.activeMsgChan: // stop之前已经leave了 不会再有新的请求进来
+			v.replyChan <- newActiveMessage(0, v.Command, nil, err)
+		default:
+			return
+		}
+	}
 }
 
 func (c *connection) onReadExecutionEvent(msg *Message) {
